@@ -143,6 +143,30 @@ Theorem C17_value_literal_only : forall V (lev : text -> res V) last result,
 Proof. exact generate_value_v2_char. Qed.
 Print Assumptions C17_value_literal_only.
 
+(* bot intent `$name`: whatever the context variable holds, the text of the BotMessage event is a
+   str or the action fails inside (AttributeError, contained) - with clean_utterance_content AS IN
+   THE SOURCE (clean_guarded read by the translator); a guard that skips non-str values is refuted *)
+Theorem C17_ctx_utterance_is_str : forall v r,
+  ctx_utterance clean_guarded v = Ok r -> exists t, r = inl t.
+Proof. exact ctx_utterance_is_str. Qed.
+Print Assumptions C17_ctx_utterance_is_str.
+
+Theorem C17_ctx_utterance_guarded_refuted : exists v, ctx_utterance true v = Ok (inr tt).
+Proof. exact ctx_utterance_guarded_refuted. Qed.
+Print Assumptions C17_ctx_utterance_guarded_refuted.
+
+(* generated values: accepted => every atom of the value, dict KEYS included, can be stored in the
+   conversation state (the key check is the one of the source: value_keys_checked) *)
+Theorem C17_value_storable : forall v,
+  supported_value value_keys_checked v = true -> forallb atom_storable (atoms v) = true.
+Proof. exact supported_value_sound. Qed.
+Print Assumptions C17_value_storable.
+
+Theorem C17_value_keys_unchecked_refuted :
+  exists v, supported_value false v = true /\ forallb atom_storable (atoms v) = false.
+Proof. exact supported_value_keys_unchecked_refuted. Qed.
+Print Assumptions C17_value_keys_unchecked_refuted.
+
 (* taint: in the three-step turn no evaluator interprets an LLM text, and an LLM-produced
    utterance is exactly the post-processed third completion *)
 Theorem C17_taint : forall llm render prompt_template predefined ctx data_env h m tr,
